@@ -126,14 +126,28 @@ SumAbs(x) == RSum([i \in 1..Len(x) |-> RAbs(x[i])])
 UnaryOps(T) == CASE T = "dual"   -> {"Inv", "Scale", "PowReal", "Abs"}
                  [] T = "hyper"  -> {"Inv", "Scale", "PowReal", "Abs"}
                  [] T = "quat"   -> {"Inv", "Scale", "Conj", "AbsQ"}
-                 [] T = "dquat"  -> {"Inv", "Scale", "Conj", "ConjDual", "ConjQuat"}
-                 [] T = "dcmplx" -> {"Inv", "Scale", "Conj"}
+                 [] T = "dquat"  -> {"Inv", "Scale", "Conj", "ConjDual", "ConjQuat", "PowReal", "SqrtSq", "AbsDQ"}
+                 [] T = "dcmplx" -> {"Inv", "Scale", "Conj", "PowReal", "SqrtSq", "AbsDC"}
 BinaryOps == {"Add", "Sub", "Mul"}
 IsSquare(n) == \E r \in 0..40 : r * r = n
 Root(n) == CHOOSE r \in 0..40 : r * r = n
 
 (************************** case construction ******************************)
+\* dual quaternions / dual complex numbers raised to a power: the leading part is one of Leads (not a
+\* negative real, whose logarithm has no preferred direction), the dual part is generic
+WithLead(T, x, idx) == LET ld == Leads(T)[(idx % 6) + 1] IN Force([i \in 1..Len(x) |-> IF i <= Len(ld) THEN ld[i] ELSE x[i]])
+(* Modulus.  dualcmplx.Abs is the modulus of the leading complex number; dualquat.Abs returns a dual number. *)
+(* Its real part is the modulus of the leading quaternion under every definition; its dual part is judged   *)
+(* only where the candidate definitions (|dual part|, and (r . d)/|r| from sqrt(x conj x)) agree: dual part *)
+(* lambda r with lambda >= 0.  Operands have integer moduli.                                                 *)
+AbsLeads == << <<1, 1, 1, 1>>, <<0, 2, 0, 0>>, <<2, 1, 2, 4>>, <<1, 2, 2, 0>>, <<0, 3, -4, 0>>, <<-2, 0, 0, 0>>, <<4, -2, 2, 1>>, <<1, 0, 0, 0>> >>
+AbsCLeads == << <<3, 4>>, <<0, 2>>, <<5, -12>>, <<-4, 3>>, <<1, 0>>, <<-8, -6>>, <<0, -1>>, <<-5, 0>> >>
+AbsLambda(i) == i % 4
+AbsOperand(cc) == IF cc.op = "AbsDQ" THEN LET r == AbsLeads[(cc.i % 8) + 1] IN r \o Force([k \in 1..4 |-> AbsLambda(cc.i \div 8) * r[k]])
+                  ELSE AbsCLeads[(cc.i % 8) + 1] \o << Salt("dcmplx", cc.i, 3), Salt("dcmplx", cc.i, 4) >>
 X(cc) == IF cc.op = "Inv" THEN Fix(cc.t, Elem(cc.t, cc.i), cc.i)
+         ELSE IF cc.op \in {"AbsDQ", "AbsDC"} THEN AbsOperand(cc)
+         ELSE IF cc.op \in {"PowReal", "SqrtSq"} /\ cc.t \in {"dquat", "dcmplx"} THEN WithLead(cc.t, Elem(cc.t, cc.i), cc.i)
          ELSE IF cc.op = "PowReal" /\ Elem(cc.t, cc.i)[1] = 0 THEN [Elem(cc.t, cc.i) EXCEPT ![1] = 3]
          ELSE Elem(cc.t, cc.i)
 Y(cc) == Elem(cc.t, cc.j)
@@ -155,14 +169,22 @@ Value(cc) ==
     [] cc.op = "Abs" -> IF X(cc)[1] < 0 THEN ANeg(x) ELSE x
     \* quaternion modulus, emitted only when it is an integer (checked by Init)
     [] cc.op = "AbsQ" -> <<RI(Root(Norm2(x)[1]))>>
+    \* Sqrt(x) Sqrt(x) = x
+    [] cc.op = "SqrtSq" -> x
+    [] cc.op = "AbsDQ" -> LET n == Root(Norm2(SubSeq(x, 1, 4))[1]) IN <<RI(n), RI(AbsLambda(cc.i \div 8) * n)>>
+    [] cc.op = "AbsDC" -> <<RI(Root(Norm2(SubSeq(x, 1, 2))[1]))>>
 
 \* rounding allowance tolu * 2^-52 * mag per component (tolu = 0: the float computation is exact)
-Tolu(cc) == CASE cc.op \in {"Inv", "PowReal"} -> 16 [] cc.op = "AbsQ" -> 4 [] OTHER -> 0
+Tolu(cc) == CASE cc.op \in {"Inv", "PowReal"} -> (IF cc.t \in {"dquat", "dcmplx"} /\ cc.op = "PowReal" THEN 64 ELSE 16)
+              [] cc.op \in {"AbsQ", "AbsDQ", "AbsDC"} -> 4 [] cc.op = "SqrtSq" -> 64 [] OTHER -> 0
 Mag(cc, val) ==
   LET x == Lift(X(cc)) IN
   CASE cc.op = "Inv" -> RMul(RAdd(One, SumAbs(x)), RMul(SumAbs(val), RAdd(One, SumAbs(val))))
     [] cc.op = "PowReal" -> RPow(RAdd(One, SumAbs(x)), cc.j % 5)
     [] cc.op = "AbsQ" -> val[1]
+    [] cc.op = "AbsDC" -> val[1]
+    [] cc.op = "AbsDQ" -> RAdd(val[1], val[2])
+    [] cc.op = "SqrtSq" -> RMul(RAdd(One, SumAbs(x)), RAdd(One, SumAbs(x)))
     [] OTHER -> Zero
 
 Case(cc, val) ==
@@ -170,7 +192,7 @@ Case(cc, val) ==
    y |-> IF cc.op \in BinaryOps THEN Y(cc) ELSE <<>>,
    s |-> Param(cc), e |-> val, tolu |-> Tolu(cc), mag |-> Mag(cc, val),
    \* classification used only to name a failure: the quaternion parts of a dual quaternion do not commute
-   note |-> IF cc.t = "dquat" /\ cc.op = "Inv" /\
+   note |-> IF cc.t = "dquat" /\ cc.op \in {"Inv", "PowReal", "SqrtSq"} /\
                LET x == Lift(X(cc))  r == SubSeq(x, 1, 4)  d == SubSeq(x, 5, 8) IN AMul("quat", r, d) # AMul("quat", d, r)
             THEN "noncommuting-parts" ELSE "value"]
 
@@ -202,6 +224,13 @@ Laws(cc, val) ==
   /\ cc.op = "Inv" => /\ AMul(T, x, val) = OneOf(T)
                       /\ AMul(T, val, x) = OneOf(T)
   /\ cc.op = "PowReal" => APow(T, x, (cc.j % 5) + 1) = AMul(T, val, x)
+  \* the dual part is a non-negative multiple of the leading part: (r . d)^2 = |r|^2 |d|^2 and r . d >= 0, so
+  \* |d| = (r . d) / |r| and the two candidate definitions of the dual part of the modulus coincide
+  /\ cc.op = "AbsDQ" => LET r == SubSeq(x, 1, 4)  d == SubSeq(x, 5, 8)
+                             dot == RSum([k \in 1..4 |-> RMul(r[k], d[k])]) IN
+                         /\ RMul(dot, dot) = RMul(Norm2(r), Norm2(d)) /\ RSgn(dot) >= 0
+                         /\ RMul(val[1], val[1]) = Norm2(r) /\ RMul(val[2], val[2]) = Norm2(d)
+  /\ cc.op = "AbsDC" => RMul(val[1], val[1]) = Norm2(SubSeq(x, 1, 2))
   /\ cc.op = "Scale" => val = AMul(T, AScale(Param(cc), OneOf(T)), x)
 
 \* laws of the basis elements
@@ -222,7 +251,7 @@ ASSUME /\ AMul("dual", Basis("dual", 2), Basis("dual", 2)) = ZeroOf("dual")
 Init == \E T \in Types :
           \/ c \in [t : {T}, op : BinaryOps, i : {i \in 0..NE(T)-1 : i % NShards = Shard}, j : 0..NE(T)-1]
           \/ c \in {cc \in [t : {T}, op : UnaryOps(T), i : {i \in 0..NE(T)-1 : i % NShards = Shard}, j : 0..4] :
-                      /\ cc.op \in {"Conj", "ConjDual", "ConjQuat", "Inv", "Abs", "AbsQ"} => cc.j = 0
+                      /\ cc.op \in {"Conj", "ConjDual", "ConjQuat", "Inv", "Abs", "AbsQ", "SqrtSq", "AbsDQ", "AbsDC"} => cc.j = 0
                       /\ cc.op = "AbsQ" => IsSquare(Norm2(Lift(Elem(T, cc.i)))[1])}
 Next == UNCHANGED c
 Spec == Init /\ [][Next]_c
